@@ -724,3 +724,63 @@ def est_rules(ctx):
            'error vector starts at zero for every epoch', f=f, node=(xz[0] if xz else g),
            key='x-zero', why='fed-back error vector is not reset to zero before the corrections '
                              'of an epoch')
+
+
+# ------------------------------------------------------------------ CORR-PAIR
+def corr_pair(ctx):
+    ctx.rule('CORR-PAIR', 'filters._correct_increments: the gyro model corrects the rotation '
+             'increments and the accelerometer model the velocity increments, each with the dt '
+             'column of the same table, stored back into the same column group of a copy')
+    repo = ctx.repo
+    f = repo.function('filters._correct_increments')
+    ctx.touch(f)
+    roles = _roles(ctx)
+    inc = f.params[0]
+    groups = {'gyro': list(repo.const('util.THETA_COLS')), 'accel': list(repo.const('util.DV_COLS'))}
+    fold = lambda n: repo.fold(n, f.module)
+    # the working copy
+    res = None
+    for st in f.node.body:
+        if isinstance(st, ast.Assign) and isinstance(st.targets[0], ast.Name) and \
+                norm_text(st.value) in ('%s.copy()' % inc, '%s.copy(deep=True)' % inc):
+            res = st.targets[0].id
+    rets = [n for n in ast.walk(f.node) if isinstance(n, ast.Return)]
+    ctx.ob('CORR-PAIR', res is not None and len(rets) == 1 and
+           isinstance(rets[0].value, ast.Name) and rets[0].value.id == res, None,
+           'the result is a copy of the increments table', f=f, key='copy',
+           why='_correct_increments does not work on (and return) a copy of its argument')
+    seen = {}
+    for st in ast.walk(f.node):
+        if not (isinstance(st, ast.Assign) and isinstance(st.targets[0], ast.Subscript) and
+                isinstance(st.value, ast.Call) and isinstance(st.value.func, ast.Attribute) and
+                st.value.func.attr == 'correct_increments'):
+            continue
+        call = st.value
+        model = call.func.value.id if isinstance(call.func.value, ast.Name) else None
+        role = roles.get((f.fq, model))
+        try:
+            tcols = list(fold(st.targets[0].slice))
+        except (ValueError, TypeError):
+            tcols = None
+        acols = None
+        dt_ok = False
+        if len(call.args) == 2:
+            a0, a1 = call.args
+            dt_ok = norm_text(a0) in ("%s['dt']" % inc, '%s.dt' % inc)
+            if isinstance(a1, ast.Subscript) and norm_text(a1.value) == inc:
+                try:
+                    acols = list(fold(a1.slice))
+                except (ValueError, TypeError):
+                    acols = None
+        ok = role in groups and tcols == acols == groups[role] and dt_ok and \
+            norm_text(st.targets[0].value) == res
+        seen[role] = seen.get(role, 0) + 1
+        ctx.ob('CORR-PAIR', ok, None, '%s model corrects %s with %s[\'dt\'] and stores %s'
+               % (role, acols, inc, tcols), f=f, node=st, key='pair-%s' % role,
+               why='`%s`: the %s model must correct the columns %s of the table (with its dt '
+                   'column) and the result must go back into the same columns; here it corrects '
+                   '%s and stores into %s' % (norm_text(st)[:100], role,
+                                              groups.get(role), acols, tcols))
+    ctx.ob('CORR-PAIR', seen == {'gyro': 1, 'accel': 1}, None,
+           'both sensor models are applied exactly once', f=f, key='both',
+           why='_correct_increments applies the sensor models %s' % seen)
